@@ -41,11 +41,13 @@ func init() {
 
 // ---------------------------------------------------------------- structured configuration
 
-// cfgVal is a typed TOML value.  kind: i integer, f decimal (value in thousandths), s string (token without
-// blanks), b boolean, p path symbol (a string whose real text the harness substitutes), t table.
+// cfgVal is a typed TOML value.  kind: i integer, f decimal (i x 10^e MILLIONTHS: any magnitude), s string (any text:
+// the protocol token escapes blanks, '%' and control characters as %XX), b boolean, p path symbol (a string whose real
+// text the harness substitutes), t table, a array, d datetime.
 type cfgVal struct {
 	kind byte
 	i    int64
+	e    int // decimals only: power of ten by which i is multiplied (>= 0)
 	s    string
 }
 
@@ -59,7 +61,12 @@ var cfgSecHeader = map[string]string{
 	"S": "Scenario", "SU": "Scenario.UserDetail", "SR": "Scenario.Reporting", "SRL": "Scenario.Reporting.LogLevelDestinations",
 	"A": "Annealer", "AP": "Annealer.Parameters", "M": "Model", "MP": "Model.Parameters", "MD": "MetaData", "Z": "SomethingEntirelyUnexpected",
 }
-var cfgSecOrder = []string{"S", "SU", "SR", "SRL", "A", "AP", "M", "MP", "MD", "Z"}
+var cfgSecOrder = []string{"S", "SU", "SR", "SRL", "A", "AP", "M", "MP", "MD", "Z"} // "T" (bare top-level keys) is always rendered first
+
+// the field of Config a table lies in: writing that field as a bare top-level VALUE and the table itself cannot both be
+// in one TOML document
+var cfgTopFieldOf = map[string]string{"S": "Scenario", "SU": "Scenario", "SR": "Scenario", "SRL": "Scenario", "A": "Annealer", "AP": "Annealer",
+	"M": "Model", "MP": "Model", "MD": "MetaData"}
 
 type cfgStruct struct{ es []cfgEntry }
 
@@ -91,10 +98,15 @@ func (c *cfgStruct) del(sec, key string) {
 func (c *cfgStruct) clone() *cfgStruct { return &cfgStruct{es: append([]cfgEntry(nil), c.es...)} }
 
 func cfgI(i int64) cfgVal  { return cfgVal{kind: 'i', i: i} }
-func cfgF(m int64) cfgVal  { return cfgVal{kind: 'f', i: m} } // thousandths
-func cfgS(s string) cfgVal { return cfgVal{kind: 's', s: s} }
-func cfgP(s string) cfgVal { return cfgVal{kind: 'p', s: s} }
-func cfgT() cfgVal         { return cfgVal{kind: 't'} }
+func cfgF(m int64) cfgVal  { return cfgVal{kind: 'f', i: m * 1000} } // m in thousandths
+func cfgFu(u int64) cfgVal { return cfgVal{kind: 'f', i: u} }        // u in millionths
+// cfgFe is mant x 10^exp (exp >= -6), e.g. cfgFe(18, 304) = 1.8e305
+func cfgFe(mant int64, exp int) cfgVal { return cfgVal{kind: 'f', i: mant, e: exp + 6} }
+func cfgS(s string) cfgVal             { return cfgVal{kind: 's', s: s} }
+func cfgP(s string) cfgVal             { return cfgVal{kind: 'p', s: s} }
+func cfgT() cfgVal                     { return cfgVal{kind: 't'} }
+func cfgA() cfgVal                     { return cfgVal{kind: 'a'} }
+func cfgD() cfgVal                     { return cfgVal{kind: 'd'} }
 func cfgB(b bool) cfgVal {
 	if b {
 		return cfgVal{kind: 'b', i: 1}
@@ -102,12 +114,47 @@ func cfgB(b bool) cfgVal {
 	return cfgVal{kind: 'b'}
 }
 
+// cfgEscape writes a key or string for the line protocol: blanks, '%' and control characters as %XX.
+func cfgEscape(s string) string {
+	var sb strings.Builder
+	for _, r := range s {
+		if r == ' ' || r == '%' || r < 0x20 || r == 0x7f {
+			fmt.Fprintf(&sb, "%%%02X", r)
+		} else {
+			sb.WriteRune(r)
+		}
+	}
+	return sb.String()
+}
+
+func cfgUnescape(s string) string {
+	var sb strings.Builder
+	for i := 0; i < len(s); i++ {
+		if s[i] == '%' && i+2 < len(s) {
+			if n, err := strconv.ParseUint(s[i+1:i+3], 16, 8); err == nil {
+				sb.WriteByte(byte(n))
+				i += 2
+				continue
+			}
+		}
+		sb.WriteByte(s[i])
+	}
+	return sb.String()
+}
+
 func (v cfgVal) token() string {
 	switch v.kind {
-	case 'i', 'f', 'b':
+	case 'i', 'b':
 		return string(v.kind) + ":" + strconv.FormatInt(v.i, 10)
-	case 't':
-		return "t:"
+	case 'f':
+		if v.i == 0 {
+			return "f:0"
+		}
+		return "f:" + strconv.FormatInt(v.i, 10) + strings.Repeat("0", v.e)
+	case 't', 'a', 'd':
+		return string(v.kind) + ":"
+	case 's':
+		return "s:" + cfgEscape(v.s)
 	default:
 		return string(v.kind) + ":" + v.s
 	}
@@ -124,7 +171,7 @@ func (c *cfgStruct) line() string {
 	})
 	parts := make([]string, len(es))
 	for i, e := range es {
-		parts[i] = e.sec + "/" + e.key + "=" + e.v.token()
+		parts[i] = e.sec + "/" + cfgEscape(e.key) + "=" + e.v.token()
 	}
 	return strings.Join(parts, " ")
 }
@@ -140,19 +187,32 @@ func parseSConfig(ws []string) (*cfgStruct, bool) {
 		v := cfgVal{kind: w[eq+1]}
 		rest := w[eq+3:]
 		switch v.kind {
-		case 'i', 'f', 'b':
+		case 'i', 'b':
 			n, err := strconv.ParseInt(rest, 10, 64)
 			if err != nil {
 				return nil, false
 			}
 			v.i = n
-		case 's', 'p':
+		case 'f': // any number of digits: the zeros beyond int64 go into the exponent
+			digits := rest
+			for len(strings.TrimLeft(digits, "-")) > 18 && strings.HasSuffix(digits, "0") {
+				digits = digits[:len(digits)-1]
+				v.e++
+			}
+			n, err := strconv.ParseInt(digits, 10, 64)
+			if err != nil {
+				return nil, false
+			}
+			v.i = n
+		case 's':
+			v.s = cfgUnescape(rest)
+		case 'p':
 			v.s = rest
-		case 't':
+		case 't', 'a', 'd':
 		default:
 			return nil, false
 		}
-		c.es = append(c.es, cfgEntry{w[:sl], w[sl+1 : eq], v})
+		c.es = append(c.es, cfgEntry{w[:sl], cfgUnescape(w[sl+1 : eq]), v})
 	}
 	return c, true
 }
@@ -199,6 +259,11 @@ func (e cfgEnv) path(sym string) string {
 		return filepath.Join(e.root, "cpu.pprof")
 	case "noprofdir":
 		return filepath.Join(e.root, "no-such-dir", "cpu.pprof")
+	case "underfile":
+		return filepath.Join(e.root, "readable.txt", "sub")
+	}
+	if cfgIsMutatedDataSet(sym) {
+		return e.mutatedDataSet(sym)
 	}
 	return filepath.Join(e.root, "sym-"+sym)
 }
@@ -208,22 +273,263 @@ func (e cfgEnv) prepare() {
 	must(os.WriteFile(filepath.Join(e.root, "readable.txt"), []byte("just text\n"), 0o644))
 }
 
+// ---------------------------------------------------------------- mutated copies of the shipped data sets
+//
+// A symbol `<class>.<base>.<edit>` names a COPY of a shipped data set (base = valid | testing: meta-file + three table
+// files) with one edit.  The class is what Crem/Model/Config.lean `pathKind` reads off the prefix:
+//   okd  still a data set the model can be built from            (PathKind.dataset)
+//   mal  loads, has the three tables, Initialise cannot use it   (PathKind.malformedDataset)
+//   unl  csv.DataSet.Load returns an error                        (PathKind.file)
+// cfgDataSetEdits is the catalogue: it decides the class of an edit from these FACTS about what the catchment model reads
+// (found by reading internal/pkg/model/models/catchment/{actions,variables}: every access is positional):
+//   * table T has at least cfgTableColumns[T] columns (dropping ANY column shifts or truncates the ones read);
+//   * the cells of the columns in cfgNumericRead[T] are read with CellFloat64: text, an empty cell or a boolean panics;
+//     the other columns (DownstreamId, ChannelWidth, SubcatchmentArea, RiparianBufferArea; ActionType) are not read so;
+//   * every planning unit named by the Gullies / Actions tables needs its row in the Subcatchments table (a header-only or
+//     truncated Subcatchments table panics); the Gullies and Actions tables may be empty;
+//   * a table file that is missing, empty (no header record) or ragged makes Load fail.
+// A wrong fact shows up as a mismatch between the model's verdict and crem's.
+
+var cfgTables = []string{"S", "G", "A"}
+var cfgTableFile = map[string]map[string]string{
+	"valid":   {"M": "ValidModel.csv", "S": "ValidSubcatchments.csv", "G": "ValidGullies.csv", "A": "ValidActions.csv"},
+	"testing": {"M": "TestingModel.csv", "S": "TestingSubcatchments.csv", "G": "TestingGullies.csv", "A": "TestingActions.csv"},
+}
+var cfgTableColumns = map[string]int{"S": 12, "G": 4, "A": 15}
+var cfgNumericRead = map[string][]int{"S": {0, 2, 3, 4, 6, 7, 8, 11}, "G": {0, 1, 2, 3}, "A": {0, 2, 3, 4, 5, 6, 7, 8, 9, 10, 11, 12, 13, 14}}
+
+// cfgNoScratch is the root of an environment whose paths are only written into texts, never created.
+const cfgNoScratch = "/nonexistent"
+
+func cfgIsMutatedDataSet(sym string) bool {
+	return strings.HasPrefix(sym, "okd.") || strings.HasPrefix(sym, "mal.") || strings.HasPrefix(sym, "unl.")
+}
+
+func cfgIntIn(xs []int, x int) bool {
+	for _, y := range xs {
+		if x == y {
+			return true
+		}
+	}
+	return false
+}
+
+// cfgRandomDataSetEdit draws one edit from the catalogue and returns its symbol (class prefix included).
+func cfgRandomDataSetEdit(r *Rng) string {
+	base := []string{"valid", "testing"}[r.Intn(2)]
+	t := cfgTables[r.Intn(3)]
+	switch r.Intn(9) {
+	case 0, 1: // drop a column
+		return fmt.Sprintf("mal.%s.drop-%s-%d", base, t, r.Intn(cfgTableColumns[t]))
+	case 2, 3, 4: // one cell becomes text / empty / a boolean
+		j := r.Intn(cfgTableColumns[t])
+		class := "okd"
+		if cfgIntIn(cfgNumericRead[t], j) {
+			class = "mal"
+		}
+		return fmt.Sprintf("%s.%s.cell-%s-%d-%d-%s", class, base, t, r.Intn(2), j, []string{"t", "e", "b"}[r.Intn(3)])
+	case 5: // no rows
+		if t == "S" {
+			return "mal." + base + ".norows-S"
+		}
+		return "okd." + base + ".norows-" + t
+	case 6: // the table file is missing / empty / ragged
+		return "unl." + base + "." + []string{"gone", "empty", "ragged"}[r.Intn(3)] + "-" + t
+	case 7: // one more column at the end
+		return "okd." + base + ".extracol-" + t
+	default: // the last Subcatchments row is dropped: the other tables still name that planning unit
+		return "mal." + base + ".lastrow-S"
+	}
+}
+
+func cfgReadCsv(path string) [][]string {
+	b, err := os.ReadFile(path)
+	must(err)
+	var recs [][]string
+	for _, l := range strings.Split(strings.ReplaceAll(strings.TrimRight(string(b), "\r\n"), "\r\n", "\n"), "\n") {
+		recs = append(recs, strings.Split(l, ","))
+	}
+	return recs
+}
+
+func cfgWriteCsv(path string, recs [][]string) {
+	var sb strings.Builder
+	for _, r := range recs {
+		sb.WriteString(strings.Join(r, ",") + "\n")
+	}
+	must(os.WriteFile(path, []byte(sb.String()), 0o644))
+}
+
+// mutatedDataSet realises the symbol below the scratch root (once) and returns the path of its meta-file.
+func (e cfgEnv) mutatedDataSet(sym string) string {
+	parts := strings.SplitN(sym, ".", 3)
+	if len(parts) != 3 || cfgTableFile[parts[1]] == nil {
+		panic("config-runs: bad data-set symbol " + sym)
+	}
+	files := cfgTableFile[parts[1]]
+	dir := filepath.Join(e.root, "ds-"+sym)
+	meta := filepath.Join(dir, files["M"])
+	if e.root == cfgNoScratch { // texts of the malformed stream are only loaded: nothing is realised
+		return meta
+	}
+	if _, err := os.Stat(meta); err == nil {
+		return meta
+	}
+	must(os.MkdirAll(dir, 0o755))
+	td := filepath.Join(cfgRepoDir(), "internal/pkg/model/models/catchment/testdata")
+	for _, f := range files {
+		b, err := os.ReadFile(filepath.Join(td, f))
+		must(err)
+		must(os.WriteFile(filepath.Join(dir, f), b, 0o644))
+	}
+	ed := strings.Split(parts[2], "-")
+	if len(ed) < 2 || files[ed[1]] == "" || ed[1] == "M" {
+		panic("config-runs: bad data-set edit " + sym)
+	}
+	tf := filepath.Join(dir, files[ed[1]])
+	num := func(i int) int { n, err := strconv.Atoi(ed[i]); must(err); return n }
+	switch ed[0] {
+	case "drop":
+		j := num(2)
+		recs := cfgReadCsv(tf)
+		for i, r := range recs {
+			recs[i] = append(append([]string{}, r[:j]...), r[j+1:]...)
+		}
+		cfgWriteCsv(tf, recs)
+	case "cell":
+		recs := cfgReadCsv(tf)
+		recs[1+num(2)][num(3)] = map[string]string{"t": "abc", "e": "", "b": "true"}[ed[4]]
+		cfgWriteCsv(tf, recs)
+	case "norows":
+		cfgWriteCsv(tf, cfgReadCsv(tf)[:1])
+	case "lastrow":
+		recs := cfgReadCsv(tf)
+		cfgWriteCsv(tf, recs[:len(recs)-1])
+	case "extracol":
+		recs := cfgReadCsv(tf)
+		for i := range recs {
+			if i == 0 {
+				recs[i] = append(recs[i], "Extra")
+			} else {
+				recs[i] = append(recs[i], "9")
+			}
+		}
+		cfgWriteCsv(tf, recs)
+	case "gone":
+		must(os.Remove(tf))
+	case "empty":
+		must(os.WriteFile(tf, nil, 0o644))
+	case "ragged":
+		recs := cfgReadCsv(tf)
+		cfgWriteCsv(tf, append(recs, recs[len(recs)-1][:2]))
+	default:
+		panic("config-runs: bad data-set edit " + sym)
+	}
+	return meta
+}
+
 // ---------------------------------------------------------------- TOML rendering
 
-func cfgRenderMilli(m int64) string {
-	neg := m < 0
+// cfgRenderDecimal writes i x 10^e millionths as a TOML float.  style 0 = plain digits (fixed point), 1 = with an
+// exponent; both denote the same decimal, so the same double.
+func cfgRenderDecimal(i int64, e int, style int) string {
+	neg := i < 0
 	if neg {
-		m = -m
+		i = -i
 	}
-	s := fmt.Sprintf("%d.%03d", m/1000, m%1000)
-	s = strings.TrimRight(s, "0")
-	if strings.HasSuffix(s, ".") {
-		s += "0"
+	var s string
+	switch {
+	case i == 0:
+		s = "0.0"
+		if style == 1 {
+			s = "0e0"
+		}
+	case style == 1 || e > 400:
+		d, z := i, e-6
+		for d%10 == 0 {
+			d /= 10
+			z++
+		}
+		ds := strconv.FormatInt(d, 10)
+		if len(ds) > 1 && i%7 == 0 { // a fraction in the mantissa now and then: 1.5e-4
+			s = ds[:1] + "." + ds[1:] + "e" + strconv.Itoa(z+len(ds)-1)
+		} else {
+			s = ds + "e" + strconv.Itoa(z)
+		}
+	case e >= 6:
+		s = strconv.FormatInt(i, 10) + strings.Repeat("0", e-6) + ".0"
+	default:
+		ds := strconv.FormatInt(i, 10) + strings.Repeat("0", e)
+		for len(ds) < 7 {
+			ds = "0" + ds
+		}
+		s = ds[:len(ds)-6] + "." + ds[len(ds)-6:]
+		s = strings.TrimRight(s, "0")
+		if strings.HasSuffix(s, ".") {
+			s += "0"
+		}
 	}
 	if neg {
 		s = "-" + s
 	}
 	return s
+}
+
+// cfgTomlQuote writes a TOML basic string (toml v0.3.1 knows \b \t \n \f \r \" \\ \uXXXX \UXXXXXXXX only).
+func cfgTomlQuote(s string) string {
+	var sb strings.Builder
+	sb.WriteByte('"')
+	for _, r := range s {
+		switch {
+		case r == '"':
+			sb.WriteString(`\"`)
+		case r == '\\':
+			sb.WriteString(`\\`)
+		case r == '\n':
+			sb.WriteString(`\n`)
+		case r == '\t':
+			sb.WriteString(`\t`)
+		case r < 0x20 || r == 0x7f:
+			fmt.Fprintf(&sb, `\u%04X`, r)
+		default:
+			sb.WriteRune(r)
+		}
+	}
+	sb.WriteByte('"')
+	return sb.String()
+}
+
+func cfgIsBareKey(k string) bool {
+	if k == "" {
+		return false
+	}
+	for _, r := range k {
+		if !(r >= 'A' && r <= 'Z' || r >= 'a' && r <= 'z' || r >= '0' && r <= '9' || r == '_' || r == '-') {
+			return false
+		}
+	}
+	return true
+}
+
+// cfgVaryCase changes the case of some letters of a table-header component (struct fields are matched by EqualFold).
+func cfgVaryCase(s string, r *Rng) string {
+	switch r.Intn(3) {
+	case 0:
+		return strings.ToLower(s)
+	case 1:
+		return strings.ToUpper(s)
+	}
+	b := []byte(s)
+	for i := range b {
+		if r.Chance(0.3) {
+			if b[i] >= 'a' && b[i] <= 'z' {
+				b[i] -= 32
+			} else if b[i] >= 'A' && b[i] <= 'Z' {
+				b[i] += 32
+			}
+		}
+	}
+	return string(b)
 }
 
 func cfgGroupDigits(n int64) string {
@@ -260,6 +566,7 @@ func (c *cfgStruct) render(env cfgEnv, r *Rng) string {
 	if r != nil && r.Chance(0.2) {
 		sb.WriteString("# generated by the config-runs suite\n\n")
 	}
+	order = append([]string{"T"}, order...)
 	for _, sec := range order {
 		es := bySec[sec]
 		if len(es) == 0 {
@@ -274,10 +581,25 @@ func (c *cfgStruct) render(env cfgEnv, r *Rng) string {
 		h := cfgSecHeader[sec]
 		if sec == "S" && r != nil && r.Chance(0.15) {
 			h = "scenario"
+		} else if sec != "Z" && r != nil && r.Chance(0.08) {
+			// every component of a header names a struct field (the last one possibly a map field): matched by EqualFold
+			parts := strings.Split(h, ".")
+			for i := range parts {
+				if r.Chance(0.6) {
+					parts[i] = cfgVaryCase(parts[i], r)
+				}
+			}
+			h = strings.Join(parts, ".")
 		}
-		sb.WriteString("[" + h + "]\n")
+		if sec != "T" {
+			sb.WriteString("[" + h + "]\n")
+		}
 		for _, e := range es {
-			sb.WriteString(e.key)
+			if cfgIsBareKey(e.key) {
+				sb.WriteString(e.key)
+			} else {
+				sb.WriteString(cfgTomlQuote(e.key))
+			}
 			if r != nil && r.Chance(0.5) {
 				sb.WriteString(" = ")
 			} else {
@@ -291,7 +613,11 @@ func (c *cfgStruct) render(env cfgEnv, r *Rng) string {
 					sb.WriteString(strconv.FormatInt(e.v.i, 10))
 				}
 			case 'f':
-				sb.WriteString(cfgRenderMilli(e.v.i))
+				style := 0
+				if r != nil && r.Chance(0.25) || e.v.e > 6 && (r == nil || r.Chance(0.6)) {
+					style = 1
+				}
+				sb.WriteString(cfgRenderDecimal(e.v.i, e.v.e, style))
 			case 'b':
 				if e.v.i != 0 {
 					sb.WriteString("true")
@@ -299,11 +625,15 @@ func (c *cfgStruct) render(env cfgEnv, r *Rng) string {
 					sb.WriteString("false")
 				}
 			case 's':
-				sb.WriteString(strconv.Quote(e.v.s))
+				sb.WriteString(cfgTomlQuote(e.v.s))
 			case 'p':
-				sb.WriteString(strconv.Quote(env.path(e.v.s)))
+				sb.WriteString(cfgTomlQuote(env.path(e.v.s)))
 			case 't':
 				sb.WriteString("{ inner = 1 }")
+			case 'a':
+				sb.WriteString([]string{"[1, 2]", "[]", `["a", "b"]`, "[[1], [2.5]]"}[len(e.key)%4])
+			case 'd':
+				sb.WriteString("1979-05-27T07:32:00Z")
 			}
 			if r != nil && r.Chance(0.1) {
 				sb.WriteString("   # a comment")
@@ -322,11 +652,13 @@ func (c *cfgStruct) render(env cfgEnv, r *Rng) string {
 var cfgAnnealers = []string{"Kirkpatrick", "Suppapitnarm", "AveragedSuppapitnarm"}
 var cfgModels = []string{"CatchmentModel", "DumbModel", "MultiObjectiveDumbModel", "NullModel"}
 
-// cfgAlt is one alternative of a grammar production: set (or delete, when del) one key.
+// cfgAlt is one alternative of a grammar production: set (or delete, when del) one key; respell: write the key that
+// is there under `key` (a canonical name) with the spelling `as` instead, keeping its value (or `v` when it is absent).
 type cfgAlt struct {
 	sec, key string
 	v        cfgVal
 	del      bool
+	as       string
 	tag      string
 }
 
@@ -336,12 +668,58 @@ func cfgAlt1(sec, key string, v cfgVal) cfgAlt {
 func cfgAltDel(sec, key string) cfgAlt {
 	return cfgAlt{sec: sec, key: key, del: true, tag: sec + "/" + key + "=absent"}
 }
+func cfgAltSpell(sec, key, as string, dflt cfgVal) cfgAlt {
+	return cfgAlt{sec: sec, key: key, as: as, v: dflt, tag: sec + "/" + key + "~" + cfgEscape(as)}
+}
+
+// the tables decoded into Go structs: toml v0.3.1 matches their keys with the field names by strings.EqualFold
+var cfgStructSec = map[string]bool{"S": true, "SR": true, "A": true, "M": true, "MD": true, "T": true}
+
+// cfgFold is strings.EqualFold's canonical form for ASCII field names (the Kelvin sign folds to k, the long s to s).
+func cfgFold(k string) string {
+	return strings.ToLower(strings.NewReplacer("\u212a", "k", "\u017f", "s").Replace(k))
+}
 
 // limit zones of a data set, extracted from the real catchment model (see cfgLimitZones)
-type cfgZone struct{ bind, never int64 } // thousandths: limit <= bind is certain to bind, limit >= never certainly never binds
+type cfgZone struct{ bind, never int64 } // MILLIONTHS: limit <= bind is certain to bind, limit >= never certainly never binds
 
 type cfgGen struct {
 	zones map[string][]cfgZone // data-set symbol -> per variable (order of varNames)
+	static map[string][]cfgAlt // (annealer/model) -> the alternatives that do not depend on the current configuration
+	rng   *Rng                 // draws the random data-set edits offered as alternatives (nil: none are offered)
+	env   *cfgEnv              // where the data sets named by `okd.` symbols are realised for cfgLimitZones
+}
+
+// zonesOf returns (computing them from the real model on first use) the limit zones of a data-set symbol.
+func (g *cfgGen) zonesOf(sym string) []cfgZone {
+	if zs, ok := g.zones[sym]; ok {
+		return zs
+	}
+	if g.env == nil || !pathKindIsDataSet(sym) {
+		return nil
+	}
+	var zs []cfgZone
+	if p := protect(func() { zs = cfgLimitZones(g.env.path(sym)) }); p != "" {
+		zs = nil
+	}
+	g.zones[sym] = zs
+	return zs
+}
+
+// pathKindIsDataSet mirrors Crem/Model/Config.lean `pathKind sym = .dataset`.
+func pathKindIsDataSet(sym string) bool {
+	return sym == "valid" || sym == "testing" || strings.HasPrefix(sym, "okd.")
+}
+
+// names that matter for the summary FILE (Runner.generateCloneId + Summary.FileNameSafeId + os.OpenFile): blanks,
+// parentheses, the text "Solution (" the greedy expression of FileNameSafeId reacts to, the 255-byte limit of a file
+// name component seen from both sides ("-Summary.csv" is 12 bytes, "-Summary.json" 13, the run part "(r_of_R)" 8),
+// bytes versus characters, a NUL, quoting, a line break
+var cfgSpecialNames = []string{
+	"two words", "My Solution (a)", "Best Solution", "Solution (", "X Solution (y) tail", "par(en)the/ses", "tab\there",
+	"a\x00b", strings.Repeat("n", 300), strings.Repeat("n", 243), strings.Repeat("n", 244), strings.Repeat("n", 242),
+	strings.Repeat("n", 235), strings.Repeat("n", 236), strings.Repeat("\u00e9", 122), strings.Repeat("\u00e9", 121) + "x",
+	"percent%41", "quote\"back\\slash", "line\nbreak", " ", "Solution(x)\nrest", "\u00fcn\u00ef c\u00f6d\u00e9 \u2713",
 }
 
 func (g *cfgGen) base(ann, mdl string, r *Rng) *cfgStruct {
@@ -377,12 +755,88 @@ func (g *cfgGen) base(ann, mdl string, r *Rng) *cfgStruct {
 // alternatives lists every single-key alternative applicable to (annealer, model): present/absent,
 // mistyped, boundary, invalid enum, unknown keys.
 func (g *cfgGen) alternatives(ann, mdl string, cur *cfgStruct) []cfgAlt {
+	if g.static == nil {
+		g.static = map[string][]cfgAlt{}
+	}
+	static, ok := g.static[ann+"/"+mdl]
+	if !ok {
+		static = g.staticAlternatives(ann, mdl)
+		g.static[ann+"/"+mdl] = static
+	}
+	out := make([]cfgAlt, len(static), len(static)+64)
+	copy(out, static)
+	if mdl == "CatchmentModel" {
+		out = append(out, g.dataAlternatives(cur)...)
+	}
+	return out
+}
+
+// dataAlternatives: the alternatives of a catchment model that depend on the data set named at the moment (limits in its
+// zones) or are drawn afresh (mutated copies of the shipped data sets).
+func (g *cfgGen) dataAlternatives(cur *cfgStruct) []cfgAlt {
+	var out []cfgAlt
+	add := func(x ...cfgAlt) { out = append(out, x...) }
+	// mutated copies of the shipped data sets: harmless edits, content Initialise cannot use, table files that do not load
+	if g.rng != nil {
+		for k := 0; k < 6; k++ {
+			add(cfgAlt1("MP", "DataSourcePath", cfgP(cfgRandomDataSetEdit(g.rng))))
+		}
+	}
+	ds := "valid"
+	if v, ok := cur.get("MP", "DataSourcePath"); ok && v.kind == 'p' {
+		ds = v.s
+	}
+	if zs := g.zonesOf(ds); zs != nil {
+		for vi, k := range varMaxKey {
+			if zs[vi].bind > 0 {
+				add(cfgAlt1("MP", k, cfgFu(zs[vi].bind/2)), cfgAlt1("MP", k, cfgFu(zs[vi].bind)))
+			}
+			add(cfgAlt1("MP", k, cfgFu(zs[vi].never)), cfgAlt1("MP", k, cfgFu(zs[vi].never*3)))
+		}
+	}
+	return out
+}
+
+func (g *cfgGen) staticAlternatives(ann, mdl string) []cfgAlt {
 	var out []cfgAlt
 	add := func(x ...cfgAlt) { out = append(out, x...) }
 	// ---- Scenario
 	add(cfgAltDel("S", "Name"), cfgAlt1("S", "Name", cfgS("")), cfgAlt1("S", "Name", cfgI(42)), cfgAlt1("S", "Name", cfgS("Other-Name_2")), cfgAlt1("S", "Name", cfgS("slash/name")))
 	add(cfgAlt1("S", "RunNumber", cfgI(0)), cfgAlt1("S", "RunNumber", cfgI(1)), cfgAlt1("S", "RunNumber", cfgI(2)), cfgAlt1("S", "RunNumber", cfgI(3)), cfgAlt1("S", "RunNumber", cfgI(-1)),
 		cfgAlt1("S", "RunNumber", cfgS("NAN")), cfgAlt1("S", "RunNumber", cfgF(1500)))
+	for _, n := range cfgSpecialNames {
+		add(cfgAlt1("S", "Name", cfgS(n)))
+	}
+	// ---- spellings: keys of the struct tables are matched up to case (EqualFold: also the Kelvin sign for k, the long s
+	// for s); keys of the map tables (parameters, log level destinations, user detail) are kept as written
+	add(cfgAltSpell("S", "Name", "name", cfgS("scn")), cfgAltSpell("S", "Name", "NAME", cfgS("scn")), cfgAltSpell("S", "RunNumber", "runnumber", cfgI(2)),
+		cfgAltSpell("S", "OutputPath", "outputPATH", cfgP("new")), cfgAltSpell("S", "OutputType", "OUTPUTTYPE", cfgS("JSON")),
+		cfgAltSpell("S", "MaximumConcurrentRunNumber", "maximumconcurrentrunnumber", cfgI(2)), cfgAltSpell("S", "CpuProfilePath", "cpuprofilepath", cfgP("prof")),
+		cfgAltSpell("S", "OutputLevel", "outputlevel", cfgS("Detail")),
+		cfgAltSpell("SR", "ReportEveryNumberOfIterations", "reporteverynumberofiterations", cfgI(0)),
+		cfgAltSpell("SR", "ReportEveryNumberOfIterations", "ReportEveryNumberOfIteration\u017f", cfgI(2)),
+		cfgAltSpell("SR", "CheckingLoopInvariant", "Chec\u212aingLoopInvariant", cfgB(true)), cfgAltSpell("SR", "CheckingLoopInvariant", "checkingloopinvariant", cfgB(true)),
+		cfgAltSpell("SR", "Type", "TYPE", cfgS("BareBones")), cfgAltSpell("SR", "Formatter", "formatter", cfgS("JSON")),
+		cfgAltSpell("A", "Type", "type", cfgS(ann)), cfgAltSpell("A", "Type", "TYPE", cfgS(ann)), cfgAltSpell("A", "EventNotifier", "eventnotifier", cfgS("Concurrent")),
+		cfgAltSpell("M", "Type", "type", cfgS(mdl)), cfgAltSpell("M", "Type", "tYPE", cfgS(mdl)), cfgAltSpell("MD", "FilePath", "filepath", cfgS("somewhere")),
+		cfgAltSpell("AP", "MaximumIterations", "maximumiterations", cfgI(5)), cfgAltSpell("MP", "DataSourcePath", "datasourcepath", cfgP("valid")),
+		cfgAltSpell("SRL", "Annealing", "annealing", cfgS("Discarded")), cfgAltSpell("MP", "InitialObjectiveValue", "initialobjectivevalue", cfgF(1000000)))
+	// ---- a struct table written as a value; arrays and datetimes (no scalar field takes them, a map field skips them,
+	// a free map stores them)
+	add(cfgAlt1("S", "Reporting", cfgI(1)), cfgAlt1("S", "Reporting", cfgT()), cfgAlt1("S", "reporting", cfgS("x")), cfgAlt1("S", "Reporting", cfgA()))
+	// the fields of Config itself as bare top-level values, an unknown bare key
+	add(cfgAlt1("T", "Scenario", cfgI(1)), cfgAlt1("T", "Scenario", cfgT()), cfgAlt1("T", "annealer", cfgS("x")), cfgAlt1("T", "Model", cfgA()), cfgAlt1("T", "MODEL", cfgB(true)),
+		cfgAlt1("T", "MetaData", cfgD()), cfgAlt1("T", "metadata", cfgT()), cfgAlt1("T", "MetaData", cfgI(0)), cfgAlt1("T", "Bogus", cfgI(1)), cfgAlt1("T", "Title", cfgS("x")))
+	add(cfgAlt1("S", "Name", cfgA()), cfgAlt1("S", "RunNumber", cfgA()), cfgAlt1("S", "OutputPath", cfgD()), cfgAlt1("S", "UserDetail", cfgA()),
+		cfgAlt1("SU", "ArrayEntry", cfgA()), cfgAlt1("SU", "DateEntry", cfgD()), cfgAlt1("SR", "LogLevelDestinations", cfgD()), cfgAlt1("SR", "CheckingLoopInvariant", cfgA()),
+		cfgAlt1("SRL", "Annealing", cfgA()), cfgAlt1("A", "Type", cfgD()), cfgAlt1("A", "Parameters", cfgA()), cfgAlt1("AP", "MaximumIterations", cfgA()),
+		cfgAlt1("AP", "Rogue", cfgD()), cfgAlt1("M", "Type", cfgA()), cfgAlt1("M", "Parameters", cfgD()), cfgAlt1("MP", "RogueArray", cfgA()))
+	// ---- decimals of every magnitude and notation: huge ones are fine in a free map, beyond the doubles they are a parse error
+	add(cfgAlt1("SU", "HugeEntry", cfgFe(1, 308)), cfgAlt1("SU", "HugeEntry", cfgFe(18, 307)), cfgAlt1("SU", "TinyEntry", cfgFu(1)), cfgAlt1("AP", "Rogue", cfgFe(1, 309)),
+		// the temperature is LOGGED with six decimals (RoundFloat panics beyond MaxFloat64/10^6 = 1.797e302) unless the level is discarded
+		cfgAlt1("AP", "StartingTemperature", cfgFe(1, 300)), cfgAlt1("AP", "StartingTemperature", cfgFe(179, 300)), cfgAlt1("AP", "StartingTemperature", cfgFe(18, 301)),
+		cfgAlt1("AP", "StartingTemperature", cfgFe(1, 308)), cfgAlt1("AP", "StartingTemperature", cfgFu(1)), cfgAlt1("AP", "CoolingFactor", cfgFu(999999)),
+		cfgAlt1("AP", "CoolingFactor", cfgFu(1000001)), cfgAlt1("AP", "CoolingFactor", cfgFu(1)))
 	// both sides of the bound checkMandatoryFields puts on RunNumber (2^31 - 1, the sync.WaitGroup counter) and values far from
 	// it; accepted ones above cfgRunLimit are never run (cfgTooLongToRun): only their accept/reject verdict is compared.
 	// The negatives are ones whose low 32 bits are negative too: in a tree without the bound they panic at once in
@@ -393,12 +847,16 @@ func (g *cfgGen) alternatives(ann, mdl string, cur *cfgStruct) []cfgAlt {
 	add(cfgAlt1("S", "MaximumConcurrentRunNumber", cfgI(0)), cfgAlt1("S", "MaximumConcurrentRunNumber", cfgI(1)), cfgAlt1("S", "MaximumConcurrentRunNumber", cfgI(2)),
 		cfgAlt1("S", "MaximumConcurrentRunNumber", cfgI(-1)), cfgAlt1("S", "MaximumConcurrentRunNumber", cfgS("two")))
 	add(cfgAltDel("S", "OutputPath"), cfgAlt1("S", "OutputPath", cfgS("")), cfgAlt1("S", "OutputPath", cfgP("exists")), cfgAlt1("S", "OutputPath", cfgP("nested")),
-		cfgAlt1("S", "OutputPath", cfgP("file")), cfgAlt1("S", "OutputPath", cfgF(42420)))
+		cfgAlt1("S", "OutputPath", cfgP("file")), cfgAlt1("S", "OutputPath", cfgF(42420)),
+		// an existing non-directory of any content (data-set files) and a path BELOW a file (stat fails, not with not-exist)
+		cfgAlt1("S", "OutputPath", cfgP("valid")), cfgAlt1("S", "OutputPath", cfgP("badcsv")), cfgAlt1("S", "OutputPath", cfgP("underfile")),
+		cfgAlt1("S", "OutputPath", cfgP("mal.valid.norows-S")), cfgAlt1("S", "OutputPath", cfgP("unl.testing.gone-G")))
 	add(cfgAlt1("S", "OutputType", cfgS("CSV")), cfgAlt1("S", "OutputType", cfgS("JSON")), cfgAlt1("S", "OutputType", cfgS("XML")), cfgAlt1("S", "OutputType", cfgS("csv")),
 		cfgAlt1("S", "OutputType", cfgI(42)), cfgAlt1("S", "OutputType", cfgS("")))
 	add(cfgAlt1("S", "OutputLevel", cfgS("Summary")), cfgAlt1("S", "OutputLevel", cfgS("Detail")), cfgAlt1("S", "OutputLevel", cfgS("Verbose")), cfgAlt1("S", "OutputLevel", cfgB(true)))
 	add(cfgAlt1("S", "CpuProfilePath", cfgP("prof")), cfgAlt1("S", "CpuProfilePath", cfgP("noprofdir")), cfgAlt1("S", "CpuProfilePath", cfgS("")), cfgAlt1("S", "CpuProfilePath", cfgI(42)),
-		cfgAlt1("S", "CpuProfilePath", cfgP("nested")), cfgAlt1("S", "CpuProfilePath", cfgP("dir")), cfgAlt1("S", "CpuProfilePath", cfgP("file")))
+		cfgAlt1("S", "CpuProfilePath", cfgP("nested")), cfgAlt1("S", "CpuProfilePath", cfgP("dir")), cfgAlt1("S", "CpuProfilePath", cfgP("file")),
+		cfgAlt1("S", "CpuProfilePath", cfgP("underfile")))
 	add(cfgAlt1("S", "Bogus", cfgI(1)), cfgAlt1("S", "Reportin", cfgS("x")), cfgAlt1("S", "UserDetail", cfgS("notATable")))
 	add(cfgAlt1("SU", "TextEntry", cfgS("SomeText")), cfgAlt1("SU", "IntegerEntry", cfgI(42)), cfgAlt1("SU", "FloatEntry", cfgF(42420)), cfgAlt1("SU", "BooleanEntry", cfgB(true)), cfgAlt1("SU", "TableEntry", cfgT()))
 	// ---- Reporting
@@ -454,32 +912,34 @@ func (g *cfgGen) alternatives(ann, mdl string, cur *cfgStruct) []cfgAlt {
 	case "DumbModel":
 		for _, k := range []string{"InitialObjectiveValue", "MinimumObjectiveValue", "MaximumObjectiveValue"} {
 			add(cfgAlt1("MP", k, cfgF(1500000)), cfgAlt1("MP", k, cfgF(0)), cfgAlt1("MP", k, cfgF(-2500)), cfgAlt1("MP", k, cfgI(2000)), cfgAlt1("MP", k, cfgS("high")))
+			// around MaxFloat64/1000 = 1.797e305, where RoundFloat (3 decimals) starts to panic, and around MaxFloat64 itself;
+			// only the INITIAL value is ever rounded
+			add(cfgAlt1("MP", k, cfgFe(179, 300)), cfgAlt1("MP", k, cfgFe(18, 301)), cfgAlt1("MP", k, cfgFe(-18, 301)),
+				cfgAlt1("MP", k, cfgFe(1, 305)), cfgAlt1("MP", k, cfgFe(179, 303)), cfgAlt1("MP", k, cfgFe(18, 304)), cfgAlt1("MP", k, cfgFe(-18, 304)),
+				cfgAlt1("MP", k, cfgFe(1, 306)), cfgAlt1("MP", k, cfgFe(1, 308)), cfgAlt1("MP", k, cfgFe(18, 307)), cfgAlt1("MP", k, cfgFe(1, 309)),
+				cfgAlt1("MP", k, cfgFu(1)), cfgAlt1("MP", k, cfgFu(-1500001)), cfgAlt1("MP", k, cfgD()))
 		}
 		add(cfgAlt1("MP", "NumberOfPlanningUnits", cfgI(3)))
 	case "MultiObjectiveDumbModel":
 		for _, k := range []string{"InitialObjectiveOneValue", "InitialObjectiveTwoValue", "InitialObjectiveThreeValue"} {
 			add(cfgAlt1("MP", k, cfgF(1500000)), cfgAlt1("MP", k, cfgF(0)), cfgAlt1("MP", k, cfgF(-2500)), cfgAlt1("MP", k, cfgI(2000)))
+			// 2 decimals inside Initialise (beyond MaxFloat64/100 = 1.797e306 Interpret itself panics), 3 decimals in every run
+			add(cfgAlt1("MP", k, cfgFe(179, 300)), cfgAlt1("MP", k, cfgFe(18, 301)),
+				cfgAlt1("MP", k, cfgFe(1, 305)), cfgAlt1("MP", k, cfgFe(179, 303)), cfgAlt1("MP", k, cfgFe(18, 304)), cfgAlt1("MP", k, cfgFe(179, 304)),
+				cfgAlt1("MP", k, cfgFe(18, 305)), cfgAlt1("MP", k, cfgFe(-18, 305)), cfgAlt1("MP", k, cfgFe(1, 308)), cfgAlt1("MP", k, cfgFe(18, 307)))
 		}
 		add(cfgAltDel("MP", "NumberOfPlanningUnits"), cfgAlt1("MP", "NumberOfPlanningUnits", cfgI(0)), cfgAlt1("MP", "NumberOfPlanningUnits", cfgI(1)), cfgAlt1("MP", "NumberOfPlanningUnits", cfgI(7)),
 			cfgAlt1("MP", "NumberOfPlanningUnits", cfgI(-1)), cfgAlt1("MP", "NumberOfPlanningUnits", cfgF(3000)), cfgAlt1("MP", "InitialObjectiveValue", cfgF(1000)))
 	case "CatchmentModel":
 		add(cfgAltDel("MP", "DataSourcePath"), cfgAlt1("MP", "DataSourcePath", cfgP("valid")), cfgAlt1("MP", "DataSourcePath", cfgP("testing")), cfgAlt1("MP", "DataSourcePath", cfgP("missing")),
 			cfgAlt1("MP", "DataSourcePath", cfgP("notcsv")), cfgAlt1("MP", "DataSourcePath", cfgP("badcsv")), cfgAlt1("MP", "DataSourcePath", cfgP("dir")), cfgAlt1("MP", "DataSourcePath", cfgI(7)),
-			cfgAlt1("MP", "DataSourcePath", cfgS("")))
-		ds := "valid"
-		if v, ok := cur.get("MP", "DataSourcePath"); ok && v.kind == 'p' {
-			ds = v.s
-		}
-		zs := g.zones[ds]
-		for vi, k := range varMaxKey {
+			cfgAlt1("MP", "DataSourcePath", cfgS("")), cfgAlt1("MP", "DataSourcePath", cfgP("underfile")))
+		for _, k := range varMaxKey {
 			add(cfgAlt1("MP", k, cfgF(0)), cfgAlt1("MP", k, cfgF(-1000)), cfgAlt1("MP", k, cfgI(400000)), cfgAlt1("MP", k, cfgS("lots")), cfgAlt1("MP", k, cfgF(1000000000000000)))
-			if zs != nil {
-				if zs[vi].bind > 0 {
-					add(cfgAlt1("MP", k, cfgF(zs[vi].bind/2)), cfgAlt1("MP", k, cfgF(zs[vi].bind)))
-				}
-				add(cfgAlt1("MP", k, cfgF(zs[vi].never)), cfgAlt1("MP", k, cfgF(zs[vi].never*3)))
-			}
 		}
+		// the documented range of the bank erosion factor is [1e-5, 5e-4]: both ends, both sides
+		add(cfgAlt1("MP", "BankErosionFudgeFactor", cfgFu(150)), cfgAlt1("MP", "BankErosionFudgeFactor", cfgFu(10)), cfgAlt1("MP", "BankErosionFudgeFactor", cfgFu(500)),
+			cfgAlt1("MP", "BankErosionFudgeFactor", cfgFu(9)), cfgAlt1("MP", "BankErosionFudgeFactor", cfgFu(501)))
 		add(cfgAlt1("MP", "BankErosionFudgeFactor", cfgF(0)), cfgAlt1("MP", "BankErosionFudgeFactor", cfgF(1)), cfgAlt1("MP", "WaterDensity", cfgF(1000)), cfgAlt1("MP", "WaterDensity", cfgI(1)),
 			cfgAlt1("MP", "SedimentDensity", cfgF(1500)), cfgAlt1("MP", "YearsOfErosion", cfgI(100)), cfgAlt1("MP", "YearsOfErosion", cfgI(0)), cfgAlt1("MP", "YearsOfErosion", cfgF(100000)),
 			cfgAlt1("MP", "RiparianBufferVegetationProportionTarget", cfgF(750)), cfgAlt1("MP", "RiparianBufferVegetationProportionTarget", cfgF(1500)),
@@ -496,28 +956,79 @@ func (g *cfgGen) alternatives(ann, mdl string, cur *cfgStruct) []cfgAlt {
 
 // a map field written as a key of its parent table and the sub-table of the same name cannot both be
 // present in one TOML document (duplicate definition = a parse error, outside the structured grammar)
-var cfgMapFieldOf = map[string][2]string{"SU": {"S", "UserDetail"}, "SRL": {"SR", "LogLevelDestinations"}, "AP": {"A", "Parameters"}, "MP": {"M", "Parameters"}}
+var cfgMapFieldOf = map[string][2]string{"SU": {"S", "UserDetail"}, "SRL": {"SR", "LogLevelDestinations"}, "AP": {"A", "Parameters"}, "MP": {"M", "Parameters"},
+	"SR": {"S", "Reporting"}} // Reporting is a struct, not a map: written as a value it is a decode error (inline table: its key is unknown)
+
+// delFolded removes every spelling of the key from a struct table (one field must not be written twice: Go would
+// decode the two in map order).
+func (c *cfgStruct) delFolded(sec, key string) {
+	var keep []cfgEntry
+	for _, e := range c.es {
+		if e.sec == sec && cfgFold(e.key) == cfgFold(key) {
+			continue
+		}
+		keep = append(keep, e)
+	}
+	c.es = keep
+}
+
+func (c *cfgStruct) dropSec(sec string) {
+	var keep []cfgEntry
+	for _, e := range c.es {
+		if e.sec != sec {
+			keep = append(keep, e)
+		}
+	}
+	c.es = keep
+}
 
 func (x cfgAlt) apply(c *cfgStruct) {
 	if x.del {
-		c.del(x.sec, x.key)
+		if cfgStructSec[x.sec] {
+			c.delFolded(x.sec, x.key)
+		} else {
+			c.del(x.sec, x.key)
+		}
 		return
 	}
-	for sub, f := range cfgMapFieldOf {
-		if x.sec == f[0] && x.key == f[1] { // the map written as a value: drop the sub-table
-			var keep []cfgEntry
-			for _, e := range c.es {
-				if e.sec != sub {
-					keep = append(keep, e)
-				}
+	key, v := x.key, x.v
+	if x.as != "" { // respell: keep the value that is there
+		for _, e := range c.es {
+			if e.sec == x.sec && (e.key == x.key || cfgStructSec[x.sec] && cfgFold(e.key) == cfgFold(x.key)) {
+				v = e.v
 			}
-			c.es = keep
+		}
+		c.del(x.sec, x.key)
+		key = x.as
+	}
+	for sub, f := range cfgMapFieldOf {
+		if x.sec == f[0] && cfgFold(key) == cfgFold(f[1]) { // the map / struct written as a value: drop the sub-table(s)
+			c.dropSec(sub)
+			if sub == "SR" {
+				c.dropSec("SRL")
+			}
 		}
 		if x.sec == sub { // an entry of the sub-table: drop the map-as-value key
-			c.del(f[0], f[1])
+			c.delFolded(f[0], f[1])
 		}
 	}
-	c.set(x.sec, x.key, x.v)
+	if x.sec == "SRL" {
+		c.delFolded("S", "Reporting")
+	}
+	if x.sec == "T" { // a field of Config written as a value: its tables go
+		for sec, field := range cfgTopFieldOf {
+			if cfgFold(field) == cfgFold(key) {
+				c.dropSec(sec)
+			}
+		}
+	}
+	if field, ok := cfgTopFieldOf[x.sec]; ok {
+		c.delFolded("T", field)
+	}
+	if cfgStructSec[x.sec] {
+		c.delFolded(x.sec, key)
+	}
+	c.set(x.sec, key, v)
 }
 
 // ---------------------------------------------------------------- limit zones from the real model
@@ -557,12 +1068,14 @@ func cfgLimitZones(path string) []cfgZone {
 		}
 		setAll(false)
 		b := int64(lo*1000*0.9) - 1000
-		if b < 0 {
+		if lo <= 0 {
+			b = -1000 // the variable can be 0 (a variation of a data set without the rows that feed it): not even the limit 0 is certain to bind
+		} else if b < 0 {
 			b = 0
 		}
 		// the validity test during random initialisation reads value + pending change after the change has
 		// already been applied (the last step counts twice), hence the factor two
-		zs[vi] = cfgZone{bind: b, never: int64(never*1000*2.02) + 2000}
+		zs[vi] = cfgZone{bind: b * 1000, never: (int64(never*1000*2.02) + 2000) * 1000} // millionths, on the thousandths grid
 	}
 	return zs
 }
@@ -687,7 +1200,7 @@ func suiteConfigChild(c *Ctx) {
 	runErr := ci.Scenario().Run()
 	os.Stdout.Sync()
 	if runErr != nil {
-		write("error-value " + strings.Join(strings.Fields(clip(runErr.Error(), 900)), " "))
+		write("error-value " + strings.Join(strings.Fields(clip(runErr.Error(), 6000)), " "))
 		return
 	}
 	// results: one summary file per run, in whichever output directory was configured
@@ -751,10 +1264,15 @@ func cfgRunChild(harness, dir, tomlPath string, outDirs []string, timeout time.D
 		fmt.Sscanf(r, "completed summaries=%d", &n)
 		return cfgRunOutcome{class: "completed", summaries: n}
 	case strings.HasPrefix(r, "error-value"):
-		if strings.Contains(r, ": run failed") { // scenario.Runner recovered a panic inside a run and reported it through Run()
-			return cfgRunOutcome{class: "run-failed-error", panicLine: clip(strings.TrimPrefix(r, "error-value "), 400), detail: r}
+		if i := strings.Index(r, ": run failed"); i >= 0 { // scenario.Runner recovered a panic inside a run and reported it through Run()
+			// the text starts with the run id, i.e. the scenario name - which may be hundreds of bytes long: keep its end only
+			from := len("error-value ")
+			if i-40 > from {
+				from = i - 40
+			}
+			return cfgRunOutcome{class: "run-failed-error", panicLine: clip(r[from:], 400), detail: clip(r, 1500)}
 		}
-		return cfgRunOutcome{class: "error-value", detail: r}
+		return cfgRunOutcome{class: "error-value", detail: clip(r, 1500)}
 	case strings.HasPrefix(r, "rejected"):
 		return cfgRunOutcome{class: "rejected", detail: r}
 	}
@@ -766,13 +1284,22 @@ func cfgRunChild(harness, dir, tomlPath string, outDirs []string, timeout time.D
 }
 
 // cfgFailureText strips the run id and the wrapping of a recovered run failure down to the panic's own text.
-func cfgFailureText(s string) string {
+func cfgFailureText(s, scenarioName string) string {
 	if i := strings.Index(s, "run failed: "); i >= 0 {
 		s = s[i+len("run failed: "):]
 	}
 	s = strings.TrimPrefix(s, "Unrecoverable annealing failure. Exiting with error: : ")
-	if i := strings.Index(s, " scn"); i > 0 && strings.Contains(s[i:], "run failed") { // further runs of the same scenario
+	if i := strings.Index(s, ": run failed"); i > 0 { // further runs of the same scenario: "<text> <name> (k/n): run failed: ..."
 		s = s[:i]
+		if j := strings.LastIndex(s, " ("); j > 0 && strings.HasSuffix(s, ")") {
+			s = s[:j]
+		}
+		if n := strings.Join(strings.Fields(scenarioName), " "); n != "" && strings.HasSuffix(s, " "+n) {
+			s = strings.TrimSuffix(s, " "+n)
+		} else if len(n) > 40 && strings.Contains(s, n[len(n)-40:]) { // the parent keeps the end of a long name only
+			s = s[:strings.Index(s, n[len(n)-40:])]
+			s = strings.TrimRight(s, n[:1])
+		}
 	}
 	return clip(strings.TrimSpace(s), 110)
 }
@@ -793,6 +1320,13 @@ func cfgPanicCandidates(pl string) []string {
 	if has("interface conversion") && has("is nil, not float64") {
 		out = append(out, "LoopInvariantWithMultiObjective")
 	}
+	// the unchecked positional table accesses of the catchment model on a data set whose content it cannot use
+	if has("index out of range") || has("interface conversion") && has("not float64") {
+		out = append(out, "CatchmentDataSetMalformed")
+	}
+	if has("Attempt to round floating point number too big") {
+		out = append(out, "ValueTooLargeToRound")
+	}
 	if has("nil pointer dereference") || has("invalid memory address") {
 		out = append(out, "NullModelUnderRealAnnealer", "CatchmentWithoutDataSource", "CatchmentDataSourceNotLoadable")
 	}
@@ -802,7 +1336,9 @@ func cfgPanicCandidates(pl string) []string {
 	if has("Expected data set supplied to have") {
 		out = append(out, "CatchmentDataSourceNotLoadable")
 	}
-	if has("not a directory") {
+	if has("cannot get file info of output path") { // os.Stat failed, and not with "does not exist" (its text may say "not a directory" too)
+		out = append(out, "OutputPathNotUsable")
+	} else if has("not a directory") {
 		out = append(out, "OutputPathNotADirectory")
 	}
 	if has("makechan: size out of range") {
@@ -835,7 +1371,7 @@ const cfgMaxRunNumber = int64(1<<31 - 1)
 const cfgRunLimit = 1000
 
 func cfgTooLongToRun(c *cfgStruct) bool {
-	v, ok := c.get("S", "RunNumber")
+	v, ok := c.getFolded("S", "RunNumber")
 	return ok && v.kind == 'i' && v.i > cfgRunLimit
 }
 
@@ -847,6 +1383,7 @@ type cfgModelPred struct {
 	accepts, safe bool
 	must, may     []string
 	fixed         []string // findings that hold syntactically but whose repair is declared
+	files         int      // the number of summary files a scenario whose runs all complete leaves behind
 	raw           string
 }
 
@@ -900,6 +1437,8 @@ func cfgModelPredictions(envLines []string, cfgs []*cfgStruct) ([]cfgModelPred, 
 				p.may = cfgSplitList(w[4:])
 			case strings.HasPrefix(w, "fixed="):
 				p.fixed = cfgSplitList(w[6:])
+			case strings.HasPrefix(w, "files="):
+				p.files, _ = strconv.Atoi(w[6:])
 			}
 		}
 		if !strings.Contains(l, "accepts=") {
@@ -929,15 +1468,27 @@ type cfgCase struct {
 	force bool // always run when accepted (corpus / replay / targeted cases)
 }
 
+// cfgSilentFinding does not end a run: the scenario completes, a summary file is missing.
+const cfgSilentFinding = "ResultFileNotWritten"
+
+func (c *cfgStruct) getFolded(sec, key string) (cfgVal, bool) {
+	for _, e := range c.es {
+		if e.sec == sec && cfgFold(e.key) == cfgFold(key) {
+			return e.v, true
+		}
+	}
+	return cfgVal{}, false
+}
+
 func cfgExpectedRuns(c *cfgStruct) int {
-	if v, ok := c.get("S", "RunNumber"); ok && v.kind == 'i' && v.i >= 1 {
+	if v, ok := c.getFolded("S", "RunNumber"); ok && v.kind == 'i' && v.i >= 1 {
 		return int(v.i)
 	}
 	return 1
 }
 
 func cfgOutDirsOf(c *cfgStruct, env cfgEnv) []string {
-	v, ok := c.get("S", "OutputPath")
+	v, ok := c.getFolded("S", "OutputPath")
 	switch {
 	case !ok:
 		return []string{env.root} // default "." = the child's working directory
@@ -959,8 +1510,7 @@ func suiteConfig(c *Ctx) {
 	var current atomic.Value
 	current.Store("")
 	progress.Store(time.Now().Unix())
-	var watching atomic.Bool
-	watching.Store(true)
+	var watching atomic.Bool // switched on for the in-process verdict loop only (generating the cases of a thorough run takes its time)
 	go func() {
 		for {
 			time.Sleep(time.Second)
@@ -987,10 +1537,10 @@ func suiteConfig(c *Ctx) {
 	c.Note("TOML parsing is not modelled: the structured form goes to the Lean model, the rendered text to crem; the malformed-text stream is checked on the Go side only (error, not panic)")
 
 	// ---- data facts: limit zones of the shipped data sets, from the real model
-	g := &cfgGen{zones: map[string][]cfgZone{}}
+	g := &cfgGen{zones: map[string][]cfgZone{}, rng: c.Rng.Fork(), env: &parentEnv}
 	// which repairs are DECLARED to be in the tree (checkprops.py: "args": ["repairs=reportEveryChecked,..."]; names as the
 	// fields of `Repairs` in Crem/Model/Config.lean: reportEveryChecked objectiveChecked loopInvariantGuarded concurrencyCapped
-	// runNumberBounded outputPathChecked cpuProfilePathChecked);
+	// runNumberBounded outputPathChecked cpuProfilePathChecked outputPathStatChecked summaryNameAnchored);
 	// the Lean model transcribes the repaired code for those; a wrong declaration is a correspondence mismatch
 	repairs := "-"
 	for _, a := range c.Args {
@@ -1040,6 +1590,28 @@ func suiteConfig(c *Ctx) {
 		cases = cfgGenerateCases(c, g)
 	}
 
+	// the harmless variations of the shipped data sets that some case names: their limit zones, from the real model too
+	var variations []string
+	for _, cs := range cases {
+		if v, ok := cs.c.get("MP", "DataSourcePath"); ok && v.kind == 'p' && strings.HasPrefix(v.s, "okd.") {
+			if _, done := g.zones[v.s]; !done {
+				g.zonesOf(v.s)
+			}
+		}
+	}
+	for sym := range g.zones {
+		if strings.HasPrefix(sym, "okd.") && g.zones[sym] != nil {
+			variations = append(variations, sym)
+		}
+	}
+	sort.Strings(variations)
+	for _, sym := range variations {
+		w := []string{"env", sym}
+		for _, z := range g.zones[sym] {
+			w = append(w, strconv.FormatInt(z.bind, 10), strconv.FormatInt(z.never, 10))
+		}
+		envLines = append(envLines, strings.Join(w, " "))
+	}
 	for _, l := range envLines {
 		c.Op(l, "ok")
 	}
@@ -1048,10 +1620,10 @@ func suiteConfig(c *Ctx) {
 	for i := range cases {
 		cfgs[i] = cases[i].c
 		cases[i].ann, cases[i].mdl = "-", "-"
-		if v, ok := cases[i].c.get("A", "Type"); ok && v.kind == 's' && cfgContains(cfgAnnealers, v.s) {
+		if v, ok := cases[i].c.getFolded("A", "Type"); ok && v.kind == 's' && cfgContains(cfgAnnealers, v.s) {
 			cases[i].ann = v.s
 		}
-		if v, ok := cases[i].c.get("M", "Type"); ok && v.kind == 's' && cfgContains(cfgModels, v.s) {
+		if v, ok := cases[i].c.getFolded("M", "Type"); ok && v.kind == 's' && cfgContains(cfgModels, v.s) {
 			cases[i].mdl = v.s
 		}
 	}
@@ -1070,6 +1642,8 @@ func suiteConfig(c *Ctx) {
 	tooLong := 0
 	rr := c.Rng.Fork()
 	verdicts := make([]cfgGoVerdict, len(cases))
+	progress.Store(time.Now().Unix())
+	watching.Store(true)
 	for i, cs := range cases {
 		progress.Store(time.Now().Unix())
 		line := cs.c.line()
@@ -1198,17 +1772,42 @@ func suiteConfig(c *Ctx) {
 		verdict := ""
 		switch o.class {
 		case "completed":
+			// the property: EXACTLY one summary file per run (distinct files: they are directory entries).  The finding that
+			// does not end a run (a summary file that cannot be created, or that every run overwrites) explains a shortfall
+			// only if the model predicted exactly the number of files found.
+			var crashMust []string
+			for _, f := range pr.must {
+				if f != cfgSilentFinding {
+					crashMust = append(crashMust, f)
+				}
+			}
 			switch {
+			case len(crashMust) > 0:
+				verdict = "unexpected-completion"
+				c.Fail("model:RunSafe-is-exact", "config:model-predicts-crash-but-completed",
+					fmt.Sprintf("the model says %v must crash this run, it completed\n%s", crashMust, texts[k]), ops)
+			case o.summaries == pr.files && pr.files == want:
+				verdict = "ok"
+			case o.summaries == pr.files:
+				verdict = "explained:" + cfgSilentFinding
+				c.Fail("C19:accepted-configuration-writes-a-result-for-every-run", "config:"+cfgSilentFinding,
+					fmt.Sprintf("accepted configuration completed but left %d summary file(s) for %d run(s) (as the model predicts from the scenario name)\n%s", o.summaries, want, texts[k]), ops)
+			case o.summaries == want:
+				verdict = "unexpected-completion"
+				c.Fail("model:RunSafe-is-exact", "config:model-predicts-crash-but-completed",
+					fmt.Sprintf("the model says only %d summary file(s) can be written for %d run(s), all were\n%s", pr.files, want, texts[k]), ops)
+			case cfgContains(pr.fixed, cfgSilentFinding):
+				verdict = "recurred:" + cfgSilentFinding
+				c.Fail("C19:accepted-configuration-writes-a-result-for-every-run", "config:"+cfgSilentFinding,
+					fmt.Sprintf("the repair declared for this finding is not effective: %d summary file(s) for %d run(s)\nmodel: %s\n%s", o.summaries, want, pr.raw, texts[k]), ops)
 			case o.summaries < want:
 				verdict = "missing-results"
 				c.Fail("C19:accepted-configuration-writes-a-result-for-every-run", "config:missing-results",
-					fmt.Sprintf("accepted configuration completed but wrote %d summary file(s) for %d run(s)\n%s", o.summaries, want, texts[k]), ops)
-			case len(pr.must) > 0:
-				verdict = "unexpected-completion"
-				c.Fail("model:RunSafe-is-exact", "config:model-predicts-crash-but-completed",
-					fmt.Sprintf("the model says %v must crash this run, it completed\n%s", pr.must, texts[k]), ops)
+					fmt.Sprintf("accepted configuration completed but left %d summary file(s) for %d run(s) (the model expects %d)\n%s", o.summaries, want, pr.files, texts[k]), ops)
 			default:
-				verdict = "ok"
+				verdict = "extra-results"
+				c.Fail("C19:accepted-configuration-writes-a-result-for-every-run", "config:extra-results",
+					fmt.Sprintf("accepted configuration completed and left %d summary file(s) for %d run(s)\n%s", o.summaries, want, texts[k]), ops)
 			}
 		case "panic", "run-failed-error":
 			explained, recurred := cfgExplain(cfgPanicCandidates(o.panicLine), pr)
@@ -1272,7 +1871,8 @@ func suiteConfig(c *Ctx) {
 			oc = "panic(" + o.panicLine + ")"
 		}
 		if o.class == "run-failed-error" {
-			oc = "run-failed-error(" + cfgFailureText(o.panicLine) + ")"
+			name, _ := cs.c.getFolded("S", "Name")
+			oc = "run-failed-error(" + cfgFailureText(o.panicLine, name.s) + ")"
 		}
 		c.Stat("outcome " + clip(oc, 120))
 		c.Stat("run " + cs.ann + "/" + cs.mdl + " " + verdict)
@@ -1462,15 +2062,99 @@ func cfgGenerateCases(c *Ctx, g *cfgGen) []cfgCase {
 				cc.set("S", "MaximumConcurrentRunNumber", cfgI(2))
 			})
 			t("output-file", func(cc *cfgStruct) { cc.set("S", "OutputPath", cfgP("file")) })
+			t("output-dataset-file", func(cc *cfgStruct) { cc.set("S", "OutputPath", cfgP("valid")) })
+			t("output-under-file", func(cc *cfgStruct) { cc.set("S", "OutputPath", cfgP("underfile")) })
+			// the scenario name and the summary files: one, two and three runs, both encoders (a null-model run writes nothing anyway)
+			for ni, name := range cfgSpecialNames {
+				name, ni := name, ni
+				for _, runs := range []int64{1, 2, 3} {
+					runs := runs
+					if md == "NullModel" || (ni+int(runs))%3 != 0 && runs != 2 && !c.Thorough() { // quick: every name with two runs, a third of the rest
+						continue
+					}
+					t(fmt.Sprintf("name-%d-runs-%d", ni, runs), func(cc *cfgStruct) {
+						cc.set("S", "Name", cfgS(name))
+						cc.set("S", "RunNumber", cfgI(runs))
+						if (ni+int(runs))%2 == 0 {
+							cc.set("S", "OutputType", cfgS("JSON"))
+						}
+					})
+				}
+			}
+			t("lower-case-keys", func(cc *cfgStruct) {
+				for _, x := range []cfgAlt{cfgAltSpell("S", "Name", "name", cfgS("scn")), cfgAltSpell("S", "OutputPath", "outputpath", cfgP("new")),
+					cfgAltSpell("A", "Type", "type", cfgS(an)), cfgAltSpell("M", "Type", "TYPE", cfgS(md))} {
+					x.apply(cc)
+				}
+				cc.set("S", "runnumber", cfgI(2))
+			})
+			t("reporting-scalar", func(cc *cfgStruct) { cfgAlt1("S", "Reporting", cfgI(1)).apply(cc) })
+			t("reporting-inline-table", func(cc *cfgStruct) { cfgAlt1("S", "Reporting", cfgT()).apply(cc) })
+			// values too large to round: with the Annealing level discarded (3 decimals count) and logged (6 decimals)
+			for vi, v := range []cfgVal{cfgFe(179, 300), cfgFe(18, 301), cfgFe(1, 308)} {
+				v := v
+				t(fmt.Sprintf("huge-temperature-%d", vi), func(cc *cfgStruct) { cc.set("AP", "StartingTemperature", v) })
+				t(fmt.Sprintf("huge-temperature-logged-%d", vi), func(cc *cfgStruct) { cc.set("AP", "StartingTemperature", v); cc.del("SRL", "Annealing") })
+			}
+			if md == "DumbModel" {
+				for vi, v := range []cfgVal{cfgFe(179, 300), cfgFe(18, 301), cfgFe(1, 305), cfgFe(179, 303), cfgFe(18, 304), cfgFe(-18, 304), cfgFe(1, 306), cfgFe(1, 308), cfgFe(18, 307)} {
+					v := v
+					t(fmt.Sprintf("huge-initial-%d", vi), func(cc *cfgStruct) { cc.set("MP", "InitialObjectiveValue", v) })
+					t(fmt.Sprintf("huge-initial-logged-%d", vi), func(cc *cfgStruct) {
+						cc.set("MP", "InitialObjectiveValue", v)
+						cc.set("SRL", "Annealing", cfgS("StandardError"))
+					})
+				}
+				t("huge-maximum", func(cc *cfgStruct) { cc.set("MP", "MaximumObjectiveValue", cfgFe(1, 308)) })
+			}
+			if md == "MultiObjectiveDumbModel" {
+				for ki, k := range []string{"InitialObjectiveOneValue", "InitialObjectiveTwoValue", "InitialObjectiveThreeValue"} {
+					for vi, v := range []cfgVal{cfgFe(179, 300), cfgFe(18, 301), cfgFe(179, 303), cfgFe(18, 304), cfgFe(179, 304), cfgFe(18, 305), cfgFe(-1, 307)} {
+						k, v, vi := k, v, vi
+						t(fmt.Sprintf("huge-initial-%d-%d", ki, vi), func(cc *cfgStruct) { cc.set("MP", k, v) })
+						if vi < 4 {
+							t(fmt.Sprintf("huge-initial-logged-%d-%d", ki, vi), func(cc *cfgStruct) { cc.set("MP", k, v); cc.del("SRL", "Annealing") })
+						}
+						// the model rounds to 2 decimals; it is the encoders (CSV summary, Detail files) that round to 3
+						t(fmt.Sprintf("huge-initial-json-%d-%d", ki, vi), func(cc *cfgStruct) { cc.set("MP", k, v); cc.set("S", "OutputType", cfgS("JSON")) })
+						t(fmt.Sprintf("huge-initial-json-detail-%d-%d", ki, vi), func(cc *cfgStruct) {
+							cc.set("MP", k, v)
+							cc.set("S", "OutputType", cfgS("JSON"))
+							cc.set("S", "OutputLevel", cfgS("Detail"))
+						})
+					}
+				}
+			}
 			if md == "CatchmentModel" {
 				t("no-datasource", func(cc *cfgStruct) { cc.del("MP", "DataSourcePath") })
 				t("no-datasource-limit", func(cc *cfgStruct) {
 					cc.del("MP", "DataSourcePath")
 					cc.set("MP", "MaximumSedimentProduction", cfgF(5000))
 				})
-				for _, sym := range []string{"notcsv", "dir", "badcsv"} {
+				syms := []string{"notcsv", "dir", "badcsv", "underfile",
+					"mal.valid.drop-A-14", "mal.valid.cell-S-0-2-t", "mal.valid.cell-A-1-0-b", "mal.valid.norows-S", "mal.testing.drop-G-0", "mal.testing.lastrow-S", "mal.testing.cell-G-0-3-e",
+					"unl.valid.gone-G", "unl.valid.empty-A", "unl.testing.ragged-S",
+					"okd.valid.extracol-A", "okd.valid.cell-S-1-5-t", "okd.testing.norows-G", "okd.valid.norows-A", "okd.testing.cell-A-0-1-e"}
+				for k := 0; k < c.N(4, 40); k++ {
+					syms = append(syms, cfgRandomDataSetEdit(g.rng))
+				}
+				for _, sym := range syms {
 					sym := sym
 					t("datasource-"+sym, func(cc *cfgStruct) { cc.set("MP", "DataSourcePath", cfgP(sym)) })
+				}
+				t("malformed-rejected-anyway", func(cc *cfgStruct) {
+					cc.set("MP", "DataSourcePath", cfgP("mal.valid.drop-S-3"))
+					cc.set("SRL", "Errors", cfgS("File"))
+				})
+				t("variation-with-limit", func(cc *cfgStruct) {
+					cc.set("MP", "DataSourcePath", cfgP("okd.valid.extracol-S"))
+					if zs := g.zonesOf("okd.valid.extracol-S"); zs != nil {
+						cc.set("MP", "MaximumImplementationCost", cfgFu(zs[4].bind))
+					}
+				})
+				for _, u := range []int64{150, 10, 500} {
+					u := u
+					t(fmt.Sprintf("bank-erosion-%d", u), func(cc *cfgStruct) { cc.set("MP", "BankErosionFudgeFactor", cfgFu(u)) })
 				}
 				t("badcsv-rejected-anyway", func(cc *cfgStruct) {
 					cc.set("MP", "DataSourcePath", cfgP("badcsv"))
@@ -1484,8 +2168,8 @@ func cfgGenerateCases(c *Ctx, g *cfgGen) []cfgCase {
 						if zs == nil {
 							continue
 						}
-						t("limit-never:"+k+":"+ds, func(cc *cfgStruct) { cc.set("MP", "DataSourcePath", cfgP(ds)); cc.set("MP", k, cfgF(zs[vi].never)) })
-						t("limit-binds:"+k+":"+ds, func(cc *cfgStruct) { cc.set("MP", "DataSourcePath", cfgP(ds)); cc.set("MP", k, cfgF(zs[vi].bind)) })
+						t("limit-never:"+k+":"+ds, func(cc *cfgStruct) { cc.set("MP", "DataSourcePath", cfgP(ds)); cc.set("MP", k, cfgFu(zs[vi].never)) })
+						t("limit-binds:"+k+":"+ds, func(cc *cfgStruct) { cc.set("MP", "DataSourcePath", cfgP(ds)); cc.set("MP", k, cfgFu(zs[vi].bind)) })
 						t("limit-zero:"+k+":"+ds, func(cc *cfgStruct) { cc.set("MP", "DataSourcePath", cfgP(ds)); cc.set("MP", k, cfgF(0)) })
 					}
 				}
@@ -1537,6 +2221,10 @@ func cfgCheckMalformed(c *Ctx, hexText string) {
 				// a damaged text that is still a configuration naming the table-less shipped CSV: the known finding
 				sig = "config:CatchmentDataSourceNotLoadable"
 			}
+			if strings.Contains(p2, "Attempt to round floating point number too big") && strings.Contains(text, "MultiObjectiveDumbModel") {
+				// … or giving the multi-objective dumb model an initial value beyond MaxFloat64/100: the known finding
+				sig = "config:ValueTooLargeToRound"
+			}
 			c.Fail("C19:interpret-never-panics", sig, p2+"\n"+clip(text, 600), []string{"malformed " + hexText})
 		}
 	}
@@ -1544,10 +2232,22 @@ func cfgCheckMalformed(c *Ctx, hexText string) {
 	c.evaluations++
 }
 
+// cfgTrickyTexts are checked in every run: unterminated and nested constructs, among them the inline table left open before
+// a comment that makes toml v0.3.1 panic with an internal "BUG: Expected key start ..." (crem must turn that into an error).
+var cfgTrickyTexts = []string{
+	"x={ a = 1 # c\n", "Scenario={ inner = 1    # a comment\n[Annealer]\nType=\"Kirkpatrick\"\n", "x = { a = 1\n", "x = [1, 2 # c\n", "x = \"abc\n", "[a\n", "[[a]\n",
+	"x = {", "x = { a = { b = 1 # c\n} }\n", "x = { a = 1, # c\n b = 2 }\n", "x = 1979-05-27T07:32:00\n", "x = 1e\n", "x = +\n", "= 1\n", "x = \n", "\"\" = 1\n",
+	"x = { , }\n", "x = [ , ]\n", "[a]\n[a]\n", "a = 1\na = 2\n", "[a.b]\n[a]\nb = 1\n", "x = 0x10\n", "x = 1__0\n", "x = '''a\n", "x = \"\\q\"\n", "x = \"\\u12\"\n",
+	"\xff\xfe", "\xef\xbb\xbfx = 1\n", "[Scenario]\nName = \"a\" # c\nReporting = { # c\n", "x = [ { a = 1 # c\n } ]\n", "x = [[1, 2], [3 # c\n",
+}
+
 func cfgMalformedStream(c *Ctx) {
 	r := c.Rng.Fork()
-	g := &cfgGen{zones: map[string][]cfgZone{}}
-	env := cfgEnv{root: "/nonexistent"}
+	for _, t := range cfgTrickyTexts {
+		cfgCheckMalformed(c, fmt.Sprintf("%x", t))
+	}
+	g := &cfgGen{zones: map[string][]cfgZone{}} // no rng: no mutated data sets (this environment has no scratch directory)
+	env := cfgEnv{root: cfgNoScratch}
 	n := c.N(600, 12000)
 	for k := 0; k < n; k++ {
 		var b []byte
